@@ -402,6 +402,8 @@ class Body:
         if 1 <= local <= self.arg_count:
             out.add(('arg', local))
         for (bb, i, kind, rv, proj) in self.assigns().get(local, []):
+            if any(e['k'] == 'deref' for e in proj):
+                continue  # a write *through* the pointer held in `local` does not redefine the pointer
             if kind == 'call':
                 idxs = through_calls(rv) if through_calls else None
                 if idxs:
